@@ -53,6 +53,11 @@ def BadAD : Option α → Prop
   | none => True
   | some v => v < 0 ∨ 1 < v
 
+/-- what is assumed of `qsort` in `c_ad_test`: a permutation of its input, ascending when no NaN is present -/
+def ADSorts (sort : List (Option α) → List (Option α)) : Prop :=
+  (∀ data, (sort data).Perm data) ∧
+    ∀ xs : List α, ∃ s : List α, sort (xs.map some) = s.map some ∧ s.Perm xs ∧ s.Pairwise (· ≤ ·)
+
 theorem adGuards_of_bad (l : List (Option α)) (h : ∃ x ∈ l, BadAD x) : ∀ prev, adGuards prev l ≠ none := by
   induction l with
   | nil => obtain ⟨x, hx, _⟩ := h; simp at hx
